@@ -75,8 +75,25 @@ def main():
         sys.stderr.flush()
         try:
             if mode == "api":
-                res = getattr(q.sim, "anneal_" + c["fn"])(build_model(q, c), **c["kw"])
+                model = build_model(q, c)
+                res = getattr(q.sim, "anneal_" + c["fn"])(model, **c["kw"])
                 out = [(sorted(r.state.items(), key=repr), r.value, r.spin) for r in res]
+                # output buffers that were never written show as values outside the domain / energies that are not
+                # the model's value at the returned state (memory the extension allocated but did not initialise)
+                spin = c["fn"] in ("quso", "puso")
+                dom = (1, -1) if spin else (0, 1)
+                val = q.utils.puso_value if spin else q.utils.pubo_value
+                for r in res:
+                    if any(v not in dom for v in r.state.values()):
+                        print("GARBAGE %d state %r" % (i, sorted(r.state.items(), key=repr)[:6]))
+                        break
+                    try:
+                        want = val(r.state, dict(model))
+                    except Exception:
+                        continue
+                    if abs(want - r.value) > 1e-6 * (1 + abs(want)):
+                        print("GARBAGE %d value %r but the model evaluates to %r at the returned state" % (i, r.value, want))
+                        break
             else:
                 out = getattr(mod, "c_anneal_" + c[0])(*c[1])
             print("RESULT %d %r" % (i, out))
